@@ -1,7 +1,7 @@
 import CentrifugeVerif.Proofs.HandshakeKey
 /-!
 Helper lemmas for C31: exactly which strings Go's `base64.StdEncoding.Decode` (as used by
-`isValidChallengeKey`: 24 characters, 16-byte buffer, `n == 16`) accepts — accounting of significant
+`isValidChallengeKey`: 24 characters, `n == 16`) accepts — accounting of significant
 characters (rules out `\r`/`\n`, which the Go decoder skips) and the shape of the accepted text.
 -/
 namespace CentrifugeVerif.C31
@@ -408,10 +408,10 @@ theorem valid_key_shape (s : Bytes) (h : isValidChallengeKey s = .valid) :
       · rename_i hn
         subst hn
         unfold goDecode at hdec
-        have hsig := (goDecodeLen_ok_sig 16 _ s 0 16 (by omega) hdec).2
+        have hsig := (goDecodeLen_ok_sig _ _ s 0 16 (by omega) hdec).2
         have hle := sigCount_le_length s
         have hclean := sigCount_eq_length_clean s (by omega)
-        obtain ⟨q, a, p, r, hs, hal, haa, hm, htail⟩ := goDecodeLen_shape 16 _ s 0 16 hclean (by omega) hdec
+        obtain ⟨q, a, p, r, hs, hal, haa, hm, htail⟩ := goDecodeLen_shape _ _ s 0 16 hclean (by omega) hdec
         rcases htail with ⟨hp, hr⟩ | ⟨x, y, hp, hx, hy, hr⟩ | ⟨x, y, z, hp, _, _, _, hr⟩
         · omega
         · subst hp hr
@@ -466,7 +466,7 @@ theorem valid_of_key_shape (s : Bytes) (h24 : s.length = 24) (ha : ∀ c ∈ s.t
     obtain ⟨v19, hv19⟩ := Option.isSome_iff_exists.mp (ha c19 (by simp))
     obtain ⟨v20, hv20⟩ := Option.isSome_iff_exists.mp (ha c20 (by simp))
     obtain ⟨v21, hv21⟩ := Option.isSome_iff_exists.mp (ha c21 (by simp))
-    simp [isValidChallengeKey, goDecode, goDecodeLen, quantum, hv0, hv1, hv2, hv3, hv4, hv5, hv6, hv7, hv8, hv9, hv10, hv11, hv12, hv13, hv14, hv15, hv16, hv17, hv18, hv19, hv20, hv21, dec6_pad, isNL_pad, skipNL]
+    simp [isValidChallengeKey, decodedLen, goDecode, goDecodeLen, quantum, hv0, hv1, hv2, hv3, hv4, hv5, hv6, hv7, hv8, hv9, hv10, hv11, hv12, hv13, hv14, hv15, hv16, hv17, hv18, hv19, hv20, hv21, dec6_pad, isNL_pad, skipNL]
 
 /-- a key is accepted iff it is 22 base64 alphabet characters followed by `==` -/
 theorem valid_key_iff (s : Bytes) :
